@@ -582,6 +582,58 @@ def copyTiles (bufsize eltsz : Nat) (dims : List Nat) : List (List Nat × List N
   tiles dims (smSize bufsize eltsz dims).1
 
 
+/-! ### which vgroups and vdatas are copied (`is_reserved`, `list_vg`, `vgroup_insert`, `list_vs` / `copy_vs`)
+
+hrepack takes a vgroup or a lone vdata for one of the library's own bookkeeping objects - and leaves it out - by looking
+at its CLASS string (and, for vgroups, at the NAME `GR_NAME`).  The class names and the prefix are read from the text of
+`is_reserved` by Tie A (`IS_RESERVED_CLASS_k`, `IS_RESERVED_PREFIX`). -/
+
+/-- a C string constant, generated as the list of its character codes -/
+def cstr (l : List Nat) : Str := l.map Char.ofNat
+
+/-- the names `is_reserved` compares with `strcmp` (whole string), in source order -/
+def reservedClasses : List Str :=
+  [cstr IS_RESERVED_CLASS_0, cstr IS_RESERVED_CLASS_1, cstr IS_RESERVED_CLASS_2, cstr IS_RESERVED_CLASS_3, cstr IS_RESERVED_CLASS_4,
+   cstr IS_RESERVED_CLASS_5, cstr IS_RESERVED_CLASS_6, cstr IS_RESERVED_CLASS_7, cstr IS_RESERVED_CLASS_8, cstr IS_RESERVED_CLASS_9,
+   cstr IS_RESERVED_CLASS_10]
+
+/-- the chunk-table class prefix (`strncmp(vgroup_class, "_HDF_CHK_TBL_", 13) == 0`) -/
+def reservedPrefix : Str := cstr IS_RESERVED_PREFIX
+
+/-- `hrepack_utils.c:is_reserved` (the argument is never NULL here): equal to one of the names, or the first
+    `IS_RESERVED_PREFIX_LEN` characters equal to the prefix (a shorter class meets its NUL first and differs) -/
+def isReserved (cls : Str) : Bool :=
+  reservedClasses.contains cls || (cls.take IS_RESERVED_PREFIX_LEN == reservedPrefix.take IS_RESERVED_PREFIX_LEN)
+
+/-- `list_vg` / `vgroup_insert`: a vgroup is skipped (`continue`) when `is_reserved(vg_class)` or `strcmp(vg_name, GR_NAME) == 0` -/
+def keepVgroup (name cls : Str) : Bool := !isReserved cls && name != cstr GR_NAME_CHARS
+
+/-- `copy_vs`: only a LONE vdata (`is_lone == 1`) with a non-empty reserved class is skipped; a vdata reached through a
+    vgroup (`vgroup_insert`, `is_lone == 0`) is always copied -/
+def keepVdata (lone : Bool) (cls : Str) : Bool := !(lone && !cls.isEmpty && isReserved cls)
+
+/-- a user vgroup or vdata of the input file; `parent` = position (in the node list) of the vgroup it was inserted into -/
+structure VNode where
+  isVg : Bool
+  name : Str
+  cls : Str
+  parent : Option Nat
+deriving DecidableEq, Repr, Inhabited
+
+/-- is this node created in the output?  `flags` = the answers for the nodes before it (parents come first).
+    A member is reached only through a vgroup that was itself entered (`vgroup_insert` recursion). -/
+def nodeKept (flags : List Bool) (n : VNode) : Bool :=
+  match n.parent with
+  | none => if n.isVg then keepVgroup n.name n.cls else keepVdata true n.cls
+  | some p => flags.getD p false && (if n.isVg then keepVgroup n.name n.cls else keepVdata false n.cls)
+
+/-- the traversal `list_vg` + `list_vs` as a fold over the nodes in creation order -/
+def keptFlagsFrom : List VNode → List Bool → List Bool
+  | [], acc => acc
+  | n :: ns, acc => keptFlagsFrom ns (acc ++ [nodeKept acc n])
+
+def keptFlags (nodes : List VNode) : List Bool := keptFlagsFrom nodes []
+
 /-! ## hdiff (`mfhdf/hdiff`), hdp dump order, hdfimport shape (C19)
 
 Element values are `Int`: integer types carry the stored value, floating-point types carry the value in EIGHTHS
